@@ -72,7 +72,7 @@ pub fn replay(path: &str) -> i32 {
         Some("client-sm-wrap") => client_sm::replay_wrap(),
         Some("c14-pure") => client_sm::replay_c14_pure(scn),
         Some("c20-client") | Some("c20-server") | Some("c20-stream") => decode::replay_c20(scn),
-        Some("c09") | Some("c09-probe") | Some("c09-resumption") | Some("c09-validity") | Some("c09-two-roles") => tls::replay_c09(scn),
+        Some("c09") | Some("c09-probe") | Some("c09-resumption") | Some("c09-validity") | Some("c09-two-roles") | Some("c09-dialed-name") => tls::replay_c09(scn),
         Some("c15") => sessions::replay_c15(scn),
         Some("c15-burst") => sessions::replay_burst(scn),
         Some("c05-backpressure") => sessions::replay_backpressure(scn),
@@ -87,10 +87,15 @@ pub fn replay(path: &str) -> i32 {
         Some("rtu-server-pty") => serial_pty::replay_rtu_server(scn),
         Some("net-history") => lifecycle_net::replay_net(scn),
         Some("c07-handshake") => lifecycle_net::replay_hs(scn),
+        Some("c07-backlog") => framing::c07_backlog_phase().violations_as_pairs(),
         Some("client-session") => client_sm::replay_session(scn),
         Some("client-sm") => client_sm::replay(scn),
         Some("client-tie") => client_sm::replay_tie(scn),
-        Some("c08-tls") => tls::c08_tls_phase().violations_as_pairs(),
+        Some("c08-tls") => {
+            let mut v = tls::c08_tls_phase().violations_as_pairs();
+            v.extend(tls::c08_same_subject_phase().violations_as_pairs());
+            v
+        }
         Some("c16-ffi-refused-add") => ffi::replay_c16_refused_add(),
         Some("client-stream") => framing::replay_client_stream(scn),
         k => {
